@@ -100,7 +100,7 @@ SeqsOf(S, lo, hi) == UNION {[1..m -> S] : m \in lo..hi}
 \* iteration classes (each class is a different generated loop header): dim / start-0 range; start # 0, step +1;
 \* step -1; |step| > 1 of both signs (start 0 and not); index array; plus empty and one-element instances
 ItersAll == { Dim(3), Dim(0), Rg(1, 4, 1), Rg(4, 0, -1), Rg(0, 5, 2), Rg(5, -1, -2), Rg(2, 2, 1), Rg(0, -3, -1),
-              Ar(<<2, 0, 2>>), Ar(<<3>>) }
+              Ar(<<2, 0, 2>>), Ar(<<3>>), Ar(<<>>) }
 ItersPair == { Dim(2), Rg(3, 0, -1), Ar(<<1, 1>>) }
 ItersPair4 == ItersPair \cup { Rg(1, 6, 2) }
 NoLoops == {}
